@@ -100,6 +100,7 @@ class Ctx:
         self.pc_size = 0
         self.labels: list[str] = []  # human-readable decision labels
         self.covers: set[str] = set()
+        self.marks: set[str] = set()   # arms of the real text entered on this path (validated at the end of the path)
         self.assumed_false = False
 
     # -- naming -----------------------------------------------------------
@@ -372,6 +373,7 @@ class PathResult:
         self.solver_secs = 0.0
         self.n_queries = 0
         self.covers: set[str] = set()
+        self.arms: set[str] = set()
 
 
 class UnitResult:
@@ -426,6 +428,14 @@ def explore(unit: Callable[[Ctx], None], *, name: str = "", timeout_ms: int = 10
         pr.solver_secs = c.solver_secs
         pr.n_queries = c.n_queries
         pr.covers = c.covers
+        if c.marks and pr.outcome == "end":
+            # the arms entered count only if the path is still satisfiable at its end (an assumption or a ghost axiom
+            # added on the way may have emptied it)
+            try:
+                if c._check() != z3.unsat:
+                    pr.arms = c.marks
+            except Exception:  # noqa: BLE001 - bookkeeping only
+                pr.arms = c.marks
         res.paths.append(pr)
         work.extend(c.alternatives)
     res.wall = time.time() - t0
